@@ -19,6 +19,7 @@ case "$name" in
   *-k) base="${name%-k}"; wt=/tmp/seed11-$base; out=/tmp/seed11-$base-out ;;
   *-l) base="${name%-l}"; wt=/tmp/seed12-$base; out=/tmp/seed12-$base-out ;;
   *-m) base="${name%-m}"; wt=/tmp/seed13-$base; out=/tmp/seed13-$base-out ;;
+  *-n) base="${name%-n}"; wt=/tmp/seed14-$base; out=/tmp/seed14-$base-out ;;
   *)   wt=/tmp/seed-$name; out=/tmp/seed-$name-out ;;
 esac
 dst=/verif/seeded/$name
@@ -27,7 +28,10 @@ mkdir -p "$dst"
 log="$dst/confirm.log"; : > "$log"
 cd "$wt" || exit 2
 # normalise the worktree: HEAD + defect (+ demo); never use git stash (it is shared between worktrees)
+# a demo added with `git add -N` would be emptied by checkout: unstage first, drop an emptied file
+git reset -q 2>/dev/null
 git checkout -q -- . 2>/dev/null
+[ -s "$wt/tests/seeded_demo.rs" ] || rm -f "$wt/tests/seeded_demo.rs"
 git apply "$out/patch.diff" 2>>"$log" || { echo "patch does not apply in its own worktree" >> "$log"; }
 if [ ! -f "$wt/tests/seeded_demo.rs" ]; then git apply "$out/demo.diff" 2>>"$log" || echo "demo.diff does not apply" >> "$log"; fi
 echo "== suite with the change" >> "$log"
